@@ -323,6 +323,7 @@ def run(ctx: Ctx) -> None:
         from . import pipeline
         pipeline.tie_full(ctx, drv, 2000 if quick else 60000)     # MarkdownIt.parse end to end on the modelled sub-language
         pipeline.tie_full(ctx, drv, 2500 if quick else 60000, ref=True)     # ... with the reference block rule (ten of eleven block rules)
+        pipeline.tie_full(ctx, drv, 1500 if quick else 40000, table=True)     # all eleven block rules: the table rule in the main chain and as a terminator (driver `fullparset`)
     finally:
         drv.close()
     scan = validate_scan()
